@@ -1,7 +1,85 @@
-(* C19 -- init always produces a configuration that bumpver itself can use. (theorems are added as they are proved) *)
-From Coq Require Import List NArith.
-From BV Require Import Lib.PyStr Model.V1 Model.Config Gen.Tables.
+(* C19 -- init always produces a configuration that bumpver itself can use.
+   all_layouts (Proofs/ConfigFacts.v): every combination of absent / empty / unrelated text / text with a
+   bumpver section for the five config-capable files, and absent / present for README.md, README.rst,
+   setup.py: 4^5 * 2^3 = 8192 project directories.  layout_iv is the initial version 2026.1001-alpha. *)
+From Coq Require Import List Bool NArith.
+From BV Require Import Lib.PyStr Model.V2 Model.V1 Model.Config Gen.Tables Proofs.ConfigFacts.
 Import ListNotations.
+Local Open Scope N_scope.
+
+Theorem C19_all_layouts_count : N.of_nat (length all_layouts) = 8192.
+Proof. exact all_layouts_count. Qed.
+Print Assumptions C19_all_layouts_count.
+
+(* if some candidate file has a bumpver section then the picked file is such a file -- for every directory *)
+Theorem C19_prefers_section_file_any_dir : forall d,
+  existsb (cand_has_section d) CONFIG_CANDIDATES = true ->
+  In (pick_config d) CONFIG_CANDIDATES /\ cand_has_section d (pick_config d) = true.
+Proof. exact prefers_section_file_any_dir. Qed.
+Print Assumptions C19_prefers_section_file_any_dir.
+
+Theorem C19_prefers_section_file : forall d, In d all_layouts ->
+  existsb (cand_has_section d) CONFIG_CANDIDATES = true ->
+  In (pick_config d) CONFIG_CANDIDATES /\ cand_has_section d (pick_config d) = true.
+Proof. exact prefers_section_file. Qed.
+Print Assumptions C19_prefers_section_file.
+
+(* if some candidate exists the picked file exists, otherwise the fallback name is used -- for every directory *)
+Theorem C19_picks_existing_any_dir : forall d,
+  (existsb (dir_has d) CONFIG_CANDIDATES = true -> In (pick_config d) CONFIG_CANDIDATES /\ dir_has d (pick_config d) = true) /\
+  (existsb (dir_has d) CONFIG_CANDIDATES = false -> pick_config d = CONFIG_FALLBACK).
+Proof. exact picks_existing_any_dir. Qed.
+Print Assumptions C19_picks_existing_any_dir.
+
+Theorem C19_picks_existing : forall d, In d all_layouts ->
+  (existsb (dir_has d) CONFIG_CANDIDATES = true -> In (pick_config d) CONFIG_CANDIDATES /\ dir_has d (pick_config d) = true) /\
+  (existsb (dir_has d) CONFIG_CANDIDATES = false -> pick_config d = CONFIG_FALLBACK).
+Proof. exact picks_existing. Qed.
+Print Assumptions C19_picks_existing.
+
+(* prior content of the config file is a prefix of the new content -- for every directory and version *)
+Theorem C19_init_appends_any_dir : forall d v f new, init_cmd d false false v = InitWrote f new ->
+  f = pick_config d /\ match dir_get d f with Some old => prefixb old new = true | None => True end.
+Proof. exact init_appends_any_dir. Qed.
+Print Assumptions C19_init_appends_any_dir.
+
+Theorem C19_init_appends : forall d, In d all_layouts -> forall f new, init_cmd d false false layout_iv = InitWrote f new ->
+  f = pick_config d /\ match dir_get d f with Some old => prefixb old new = true | None => True end.
+Proof. exact init_appends. Qed.
+Print Assumptions C19_init_appends.
+
+(* after init, the file init wrote is the one that is picked, and it has a bumpver section *)
+Theorem C19_init_self_selecting : forall d, In d all_layouts -> forall f new, init_cmd d false false layout_iv = InitWrote f new ->
+  pick_config (dir_set d f new) = f /\ has_bumpver_section new = true.
+Proof. exact init_self_selecting. Qed.
+Print Assumptions C19_init_self_selecting.
+
+Theorem C19_init_never_errors : forall d, In d all_layouts -> init_cmd d false false layout_iv <> InitError.
+Proof. exact init_never_errors. Qed.
+Print Assumptions C19_init_never_errors.
+
+(* the dry run reports the same file and the same text that the real run appends *)
+Theorem C19_dry_writes_nothing : forall d, In d all_layouts ->
+  exists text, init_cmd d false true layout_iv = InitDry (pick_config d) text /\
+               init_cmd d false false layout_iv = InitWrote (pick_config d) (appended d (pick_config d) text).
+Proof. exact dry_writes_nothing. Qed.
+Print Assumptions C19_dry_writes_nothing.
+
+Theorem C19_dry_matches_real_any_dir : forall d v f text, init_cmd d false true v = InitDry f text ->
+  f = pick_config d /\ init_cmd d false false v = InitWrote f (appended d f text).
+Proof. exact dry_matches_real_any_dir. Qed.
+Print Assumptions C19_dry_matches_real_any_dir.
+
+Theorem C19_refuses_when_configured : forall d, In d all_layouts -> forall dry, init_cmd d true dry layout_iv = InitRefused.
+Proof. exact refuses_when_configured. Qed.
+Print Assumptions C19_refuses_when_configured.
+
+(* the appended text names every present file among setup.py, README.md, README.rst and records the initial version *)
+Theorem C19_init_mentions_existing_files : forall d, In d all_layouts -> forall f text, init_cmd d false true layout_iv = InitDry f text ->
+  (forall n, In n mention_names -> dir_has d n = true -> str_in n text = true) /\ str_in (t_cv_assign ++ layout_iv) text = true.
+Proof. exact init_mentions_existing_files. Qed.
+Print Assumptions C19_init_mentions_existing_files.
+
 Example C19_empty_dir_picks_fallback : pick_config [] = CONFIG_FALLBACK.
 Proof. vm_compute. reflexivity. Qed.
 Print Assumptions C19_empty_dir_picks_fallback.
